@@ -200,8 +200,9 @@ def recording_executor(log):
             return groups, m
 
         def collect_execution_groups(self, parent_type, source_value, path, new_grouped_field_sets, delivery_group_map):
+            from graphql.execution.incremental.incremental_executor import should_defer
             for dus, gfs in new_grouped_field_sets.items():
-                log.tasks.add((_plist(path), frozenset(_dchain(d) for d in dus), frozenset(gfs)))
+                log.tasks.add((_plist(path), frozenset(_dchain(d) for d in dus), frozenset(gfs), bool(should_defer(self.defer_usage_set, dus))))
             return super().collect_execution_groups(parent_type, source_value, path, new_grouped_field_sets, delivery_group_map)
 
         def execute_fields(self, parent_type, source_value, path, grouped_field_set, position_context):
@@ -312,7 +313,7 @@ def observe(doc, early=False):
     ini, pays = execute(doc, False, early, recording_executor(log))
     rec = {"doc": doc,
            "groups": [{"path": list(p), "chain": list(c), "parent": list(pc)} for p, c, pc in sorted(log.groups)],
-           "tasks": [{"path": list(p), "gs": [list(c) for c in sorted(gs)], "keys": sorted(ks)} for p, gs, ks in sorted(log.tasks, key=repr)],
+           "tasks": [{"path": list(p), "gs": [list(c) for c in sorted(gs)], "keys": sorted(ks), "soon": soon} for p, gs, ks, soon in sorted(log.tasks, key=repr)],
            "execs": [{"path": list(p), "key": k, "dus": [list(c) for c in sorted(dus)]} for p, k, dus in sorted(log.execs, key=repr)],
            "failed": [], "lost": [], "_clean_ok": True, "_text": render(doc)}
     # error-free: assembled = reference (C04 clause 1)
